@@ -31,11 +31,17 @@ fn result_bad(out: &mut Buf, key: &str, msg: &str, evals: u64, case: &[u8]) {
 // C09 (b): end-to-end sweep between two sentinels
 
 /// one length: sentinel, X(len), sentinel, then X overwritten with len+1 and len-1
-fn c09_one(dir: &std::path::Path, is_key: bool, len: usize, seed: u64) -> Result<u64, String> {
+fn c09_one(dir: &std::path::Path, mode: u8, len: usize, seed: u64) -> Result<u64, String> {
     clear_dir(dir);
+    let is_key = mode != 0;
     // the key sweep runs on a one-bucket table: all records are in one chain, so a record that has to
-    // move is also re-linked
-    let p = Params::buckets(if is_key { 1 } else { 8 });
+    // move is also re-linked; mode 2: with `Auto` buffers (4 KiB chunks), so that records and their fields
+    // straddle chunk boundaries of the key and value file already in small files
+    let mut p = Params::buckets(if is_key { 1 } else { 8 });
+    if mode == 2 {
+        p.key = BufP::Auto;
+        p.val = BufP::Auto;
+    }
     let s1k = b"sentinel-1".to_vec();
     let s2k = b"sentinel-2".to_vec();
     let s1v = pat(seed ^ 1, 37);
@@ -99,6 +105,19 @@ fn c09_one(dir: &std::path::Path, is_key: bool, len: usize, seed: u64) -> Result
             }
             checks += 3;
         }
+        // the entry again, together with a key that extends it by one byte and one that is its prefix
+        put(&mut m, &mut model, &xk, pat(seed ^ 10, 33))?;
+        let mut longer = xk.clone();
+        longer.push(0x55);
+        put(&mut m, &mut model, &longer, pat(seed ^ 11, 17))?;
+        if len >= 1 {
+            let shorter = xk[..len - 1].to_vec();
+            if shorter != s1k && shorter != s2k {
+                put(&mut m, &mut model, &shorter, pat(seed ^ 12, 19))?;
+            }
+        }
+        verify(&mut m, &model, "after storing the key together with its one-byte extension and its prefix")?;
+        checks += 3;
     } else {
         put(&mut m, &mut model, &s1k, s1v.clone())?;
         put(&mut m, &mut model, &xk, pat(seed ^ 4, len))?;
@@ -158,7 +177,8 @@ fn c09_one(dir: &std::path::Path, is_key: bool, len: usize, seed: u64) -> Result
 
 fn c09_job(payload: &[u8], io: &mut WorkerIo) -> Vec<u8> {
     let mut r = Rd::new(payload);
-    let is_key = r.u8() == 1;
+    let mode = r.u8();
+    let is_key = mode != 0;
     let seed = r.u64();
     let n = r.u32();
     let lens: Vec<u64> = (0..n).map(|_| r.u64()).collect();
@@ -168,13 +188,13 @@ fn c09_job(payload: &[u8], io: &mut WorkerIo) -> Vec<u8> {
     let mut evals = 0u64;
     for l in &lens {
         io.progress(*l);
-        match c09_one(&dir, is_key, *l as usize, seed) {
+        match c09_one(&dir, mode, *l as usize, seed) {
             Ok(c) => evals += c,
             Err(e) => {
                 let what = if is_key { "key" } else { "value" };
                 let mut case = Buf::new();
-                case.u8(is_key as u8).u64(seed).u32(1).u64(*l);
-                result_bad(&mut out, &format!("e2e:{what}:{}", class_of(*l)), &format!("{what} length {l}: {e}"), evals, &case.0);
+                case.u8(mode).u64(seed).u32(1).u64(*l);
+                result_bad(&mut out, &format!("e2e:{what}:{}", class_of(*l)), &format!("{what} length {l}{}: {e}", if mode == 2 { " (4 KiB buffer chunks)" } else { "" }), evals, &case.0);
                 return out.0;
             }
         }
@@ -327,6 +347,20 @@ pub fn c09(tier: &str, seed: u64) -> i32 {
     };
     mk(false, &val_lens, 24);
     mk(true, &key_lens, 24);
+    // the key sweep once more with 4 KiB buffer chunks (lengths up to 4300 and around 8 KiB)
+    let mut small_chunk_lens: Vec<u64> = (0..=if thorough { 4300 } else { 1100 }).collect();
+    small_chunk_lens.extend((4096 - 40)..=(4096 + 8));
+    small_chunk_lens.extend((8192 - 24)..=(8192 + 4));
+    small_chunk_lens.sort();
+    small_chunk_lens.dedup();
+    for c in small_chunk_lens.chunks(24) {
+        let mut b = Buf::new();
+        b.u8(JOB_F_C09).u8(2).u64(seed).u32(c.len() as u32);
+        for l in c {
+            b.u64(*l);
+        }
+        jobs.push(b.0);
+    }
     let t1 = ctx.run.elapsed();
     let results = ctx.pool.map(&jobs, |i| i);
     let mut evals = 0u64;
@@ -349,9 +383,10 @@ pub fn c09(tier: &str, seed: u64) -> i32 {
             JobResult::Crashed { progress, how } => {
                 let kind = if how.contains("hang") { "hang" } else { "abort" };
                 let l = progress.unwrap_or(0);
-                let is_key = jobs[i][1] == 1;
+                let mode = jobs[i][1];
+                let is_key = mode != 0;
                 let mut case = Buf::new();
-                case.u8(is_key as u8).u64(seed).u32(1).u64(l);
+                case.u8(mode).u64(seed).u32(1).u64(l);
                 let msg = format!("{} length {l}: the store/read-back cycle does not return normally: {how}", if is_key { "key" } else { "value" });
                 ctx.run.violation(Violation { prop: "C09".into(), key: format!("e2e:{kind}:{}", class_of(l)), message: msg.clone(), replay: Replay { engine: "C09b".into(), config: vec![], case: case.0, story: vec![msg] } });
             }
@@ -684,10 +719,19 @@ fn c10_map_level<T: IntKey>(dir: &std::path::Path, evals: &mut u64) -> Result<()
 where
     T: for<'a> From<&'a T>,
 {
+    // once on a 64-bucket table and once with all integers in one chain (the stored-key comparison decides every lookup)
+    c10_map_level_n::<T>(dir, 64, evals)?;
+    c10_map_level_n::<T>(dir, 1, evals)
+}
+
+fn c10_map_level_n<T: IntKey>(dir: &std::path::Path, buckets: u64, evals: &mut u64) -> Result<(), (String, String)>
+where
+    T: for<'a> From<&'a T>,
+{
     let kt = T::ID;
     clear_dir(dir);
     let b = boundary_ints();
-    let p = Params::buckets(64);
+    let p = Params::buckets(buckets);
     let (db, mut m) = match open_map::<T>(dir, MAP_NAME, &p) {
         Out::Ok(x) => x,
         o => return Err(("map:open".into(), format!("open {}", o.failed().unwrap_or_default()))),
@@ -1296,6 +1340,45 @@ fn c13_job(payload: &[u8], io: &mut WorkerIo) -> Vec<u8> {
         };
         evals += 1;
         io.progress(evals);
+        if sub >= 100 {
+            // one file replaced by 1..15 bytes of garbage: shorter than a complete signature, and not this format's
+            let x = sub - 100;
+            let fi = x / 15;
+            let len = x % 15 + 1;
+            // (a file cut down to a prefix of its own header is not a foreign signature: reads past the end give
+            // zeros and every signature ends in a zero byte - only garbage is used)
+            let garbage = true;
+            let mut mixed = img_a.clone();
+            let fbytes = match fi {
+                0 => &mut mixed.htx,
+                1 => &mut mixed.key,
+                _ => &mut mixed.val,
+            };
+            if fbytes.len() < len {
+                result_ok(&mut out, evals, evals);
+                return out.0;
+            }
+            fbytes.truncate(len);
+            if garbage {
+                for (i, b) in fbytes.iter_mut().enumerate() {
+                    *b = 0xAB ^ (i as u8);
+                }
+            }
+            let what_file = format!(".{} {} {len} byte(s)", files[fi], if garbage { "replaced by garbage of" } else { "cut down to its first" });
+            match try_open_as(a, &mixed, &work) {
+                Ok(None) => {}
+                Ok(Some(what)) => {
+                    fail(&mut out, format!("short-file:{}:{}:{}", a.name(), files[fi], if garbage { "garbage" } else { "truncated" }), format!("a {} map ({}, {buckets} buckets) whose {what_file} opens and answers: {what}", a.name(), if empty { "never updated" } else { "one entry" }), evals, payload.to_vec());
+                    return out.0;
+                }
+                Err(e) => {
+                    fail(&mut out, format!("rejected-open-modifies:{}:{}:short", a.name(), files[fi]), format!("{} map whose {what_file}: {e}", a.name()), evals, payload.to_vec());
+                    return out.0;
+                }
+            }
+            result_ok(&mut out, evals, evals);
+            return out.0;
+        }
         if sub >= 4 {
             // one file of the map replaced by a copy of one of its own sibling files (same key type, another file kind)
             let pairs = [(0usize, 1usize), (0, 2), (1, 0), (1, 2), (2, 0), (2, 1)];
@@ -1421,7 +1504,7 @@ pub fn c13(tier: &str, seed: u64) -> i32 {
                     jobs.push(b.0);
                 }
             }
-            for sub in 4..10u32 {
+            for sub in (4..10u32).chain(100..145) {
                 let mut b = Buf::new();
                 b.u8(JOB_F_C13).u8(empty).u8(a as u8).u8(a as u8).u32(sub);
                 jobs.push(b.0);
@@ -1467,7 +1550,7 @@ pub fn c13(tier: &str, seed: u64) -> i32 {
     eprintln!("[C13] open attempts: {evals}");
     ctx.run.set("evaluations", J::Int(evals as i64));
     ctx.run.set("distinct_nontrivial", J::Int(evals as i64));
-    ctx.run.set("rule", J::s("complete enumeration: (1) every ordered pair of the five key types: files created for A opened as B, and a directory of A files in which one of .htx/.key/.val comes from a B map opened as A; per key type also every ordered pair of file kinds: one file replaced by a copy of a sibling file of the same map (a table file where the key file should be, ...); (2) per key type and per file every single-byte change (255 values) of each of the 16 leading signature bytes (5 x 3 x 16 x 255 = 61200 per table size and fill state); both families on tables of 8, 1, 4 and 1024 buckets (the table file is 137 bytes long with one bucket), each on maps holding one entry, on maps that were created and never updated (files of exactly header size) and on the files of a never-updated map as they are after flush() while the handles are still alive. each attempt runs under catch_unwind: the open must fail (Err or panic) or at least no len/get/includes_key/iteration may answer Ok; afterwards the three files must be byte-identical. every case is distinct"));
+    ctx.run.set("rule", J::s("complete enumeration: (1) every ordered pair of the five key types: files created for A opened as B, and a directory of A files in which one of .htx/.key/.val comes from a B map opened as A; per key type also every ordered pair of file kinds: one file replaced by a copy of a sibling file of the same map (a table file where the key file should be, ...), and each file replaced by 1..15 bytes of garbage (a file shorter than a signature); (2) per key type and per file every single-byte change (255 values) of each of the 16 leading signature bytes (5 x 3 x 16 x 255 = 61200 per table size and fill state); both families on tables of 8, 1, 4 and 1024 buckets (the table file is 137 bytes long with one bucket), each on maps holding one entry, on maps that were created and never updated (files of exactly header size) and on the files of a never-updated map as they are after flush() while the handles are still alive. each attempt runs under catch_unwind: the open must fail (Err or panic) or at least no len/get/includes_key/iteration may answer Ok; afterwards the three files must be byte-identical. every case is distinct"));
     ctx.run.sample(J::s("string files opened as bytes"));
     ctx.run.sample(J::s("u64 map whose .val comes from an i64 map, opened as u64"));
     ctx.run.sample(J::s("bytes map, byte 6 of .key changed from 'K' to 'L'"));
@@ -1553,6 +1636,40 @@ fn c14_type<T: Kt>(dir: &std::path::Path, max_len: usize, evals: &mut u64) -> Re
             drop(m);
             drop(db);
         });
+        // a batch with a value beyond 128 KiB (three-byte size field, more than one buffer chunk)
+        {
+            *evals += 1;
+            clear_dir(dir);
+            let (db, mut m) = match open_map::<T>(dir, MAP_NAME, &p) {
+                Out::Ok(x) => x,
+                o => return Err(("open".into(), format!("open {}", o.failed().unwrap_or_default()))),
+            };
+            let mut model: BTreeMap<Vec<u8>, Vec<u8>> = BTreeMap::new();
+            let big = pat(71, 140_000);
+            let small = pat(72, 9);
+            let pairs: Vec<(&[u8], &[u8])> = vec![(&ek[1][..], &big[..]), (&ek[0][..], &small[..])];
+            for (k, v) in &pairs {
+                model.insert(k.to_vec(), v.to_vec());
+            }
+            if guard(|| m.bulk_put(&pairs)) != Out::Ok(()) {
+                return Err(("bulk_put".into(), format!("{}: bulk_put with a 140000-byte value fails", kt.name())));
+            }
+            let ks: Vec<&[u8]> = vec![&ek[0][..], &ek[1][..], &ek[2][..], &ek[1][..]];
+            let exp: Vec<Option<Vec<u8>>> = ks.iter().map(|k| model.get(*k).cloned()).collect();
+            if guard(|| m.bulk_get(&ks)) != Out::Ok(exp) {
+                return Err(("bulk_get".into(), format!("{}: bulk_get of a 140000-byte value differs from what was put", kt.name())));
+            }
+            check_state(&mut m, &ek, &model, kt, "bulk_put with a 140000-byte value")?;
+            let exp = vec![model.remove(&ek[1])];
+            if guard(|| m.bulk_delete(&[&ek[1][..]])) != Out::Ok(exp) {
+                return Err(("bulk_delete".into(), format!("{}: bulk_delete of a 140000-byte value does not return it", kt.name())));
+            }
+            check_state(&mut m, &ek, &model, kt, "bulk_delete of a 140000-byte value")?;
+            let _ = guard_plain(move || {
+                drop(m);
+                drop(db);
+            });
+        }
         // batches over keys of every pair of adjacent key slot classes: a key of class i and a short key are
         // stored in one batch, the first is deleted by a batch, a key of class i+1 is stored by a batch
         for i in 0..15usize {
